@@ -122,6 +122,7 @@ TraceNext ==
      /\ Chk(Det_GroupEpoch, "P", e, "Det_GroupEpoch")
      /\ Chk(Det_GroupAsg, "P", e, "Det_GroupAsg")
      /\ Chk(NoTombLive', "P", e, "NoTombLive")
+     /\ Chk(GroupsValid', "P", e, "GroupsValid")
      /\ Chk(GroupsFine', "I", e, "GroupsFine")
      /\ Chk(EpochsFine', "I", e, "EpochsFine")
      /\ Chk(FlagsConsistent', "I", e, "FlagsConsistent")
